@@ -14,7 +14,9 @@
 (* A case carries `kinds`: per nonterminal (same order as G.nts) "V" (the  *)
 (* harness' value type, declared), "unit" (declared ()), or "infer".       *)
 (* Types are terms <<"V">>, <<"unit">>, <<"usize">>, <<"recovery">>,       *)
-(* <<"tuple", t1, ..>>, <<"vec", t>>, <<"opt", t>>.                        *)
+(* <<"tuple", t1, ..>>, <<"vec", t>>, <<"opt", t>>, <<"ref", t>>,          *)
+(* <<"box", t>> (macro instances whose declared type mentions a parameter  *)
+(* behind a reference / inside a generic: kinds "ref", "box").             *)
 (***************************************************************************)
 EXTENDS Grammar, SemVal
 
@@ -49,6 +51,12 @@ TypeOfNt(C, A, fuel) ==
   ELSE LET k == KindOf(C, A) IN
        IF k = "V" THEN <<"V">>
        ELSE IF k = "unit" THEN <<"unit">>
+       ELSE IF k \in {"ref", "box"} THEN
+            \* a macro instance declared  Option<&'static P>  /  Box<P> : P is the type of the argument, which is the
+            \* (only) symbol of the instance's first alternative
+            LET p0 == CHOOSE p \in ProdsOf(C.G, A) : \A q \in ProdsOf(C.G, A) : p <= q
+                t == SymType(C, p0, [k |-> "sym", i |-> 1, sel |-> FALSE], fuel - 1)
+            IN IF k = "ref" THEN <<"opt", <<"ref", t>>>> ELSE <<"box", t>>
        ELSE LET ps == {p \in ProdsOf(C.G, A) : ~Silent(C.P[p])}
             IN IF ps = {} THEN <<"unit">>
                ELSE AltType(C, CHOOSE p \in ps : \A q \in ps : p <= q, fuel - 1)
